@@ -21,6 +21,13 @@ pub fn check_against_truth(d: &Driver, ex: &Exchange, truth: &Truth, ref_head: O
             return false;
         }
     }
+    if let Some((k, out)) = d.stalled_with_room {
+        rec.fail(
+            &format!("{}/send-stalled-with-room", sig),
+            format!("a body write offering {} bytes into a {}-byte buffer consumed and produced nothing: under a schedule that keeps this buffer size the exchange never completes", k, out),
+        );
+        return false;
+    }
     // request payload
     if truth.body_sent {
         let chunked = d.head_out.windows(28).any(|w| w.eq_ignore_ascii_case(b"transfer-encoding: chunked\r\n"));
